@@ -58,6 +58,11 @@ class StoreJudge:
             self.cap = None if w[2] == "inf" else int(w[2])
             self.prio = False; self.filter = False; self.td = 0
             self.mode = w[3]; self.timed = True
+        elif self.family == "slot":
+            self.cap = int(w[2]); self.prio = False; self.filter = False; self.td = 0
+            self.mode = "FIFO"; self.timed = True
+            self.sdelay = int(w[3]); self.acc = (len(w) < 5 or w[4] != "0")
+            self.last_entry = None
         elif self.family == "fleet":
             self.cap = int(w[2]); self.prio = False; self.filter = False; self.td = 0
             self.mode = "FIFO"; self.timed = True
@@ -117,7 +122,7 @@ class StoreJudge:
         else:
             # an API call at this instant may leave internal events pending (timers, trigger events)
             if self.timed or self.filter: self.quiescent = False if k in ("put",) else self.quiescent
-        if self.family == "fleet": self.quiescent = True     # availability is reported explicitly, the triggers run inside the move
+        if self.family in ("fleet", "slot"): self.quiescent = True     # availability is reported explicitly, the triggers run inside the move
         if head.startswith("err") and k in ("adv", "settle", "kstep", "ev"):
             self.v("C20", f"exception escaped the kernel during {k}: {head}")
             return
@@ -152,7 +157,42 @@ class StoreJudge:
         if head.startswith("err") and trig:
             self.v("C07", f"rejected call {op} fired tokens {trig}")
         if self.family == "fleet": self.fleet_line(op, parse_ready(line))
+        if self.family == "slot": self.slot_line(op, parse_ready(line), head)
         self.after_line(op)
+
+    # ---- slotted conveyor (C12, C13)
+    def slot_line(self, op, ready_ids, head):
+        INF = 10 ** 9
+        travel = self.cap * self.sdelay
+        stalled_before = getattr(self, "_stalled", False)
+        if ready_ids:
+            for iid in ready_ids:
+                e = next((x for x in self.inside if x["id"] == iid and x["ready_at"] >= INF), None)
+                if e is None:
+                    self.v("C12", f"item {iid} offered at t={self.now} but it is not a moving item of this conveyor", "order"); continue
+                older = [x["id"] for x in self.inside if x["ready_at"] >= INF and x["seq"] < e["seq"]]
+                if older:
+                    self.v("C12", f"item {iid} reached the exit before items {older}, which entered earlier", "order")
+                if self.now < e["ptime"] + travel:
+                    self.v("C12", f"item {iid} entered at t={e['ptime']} and was offered at t={self.now}, before the belt travel time {travel}", "travel-short")
+                elif self.now > e["ptime"] + travel and not stalled_before:
+                    self.v("C12", f"item {iid} entered at t={e['ptime']} and was offered only at t={self.now} although the belt never stopped (travel time {travel})", "travel-long")
+                if stalled_before and not self.acc:
+                    self.v("C13", f"non-accumulating conveyor: item {iid} advanced to the exit at t={self.now} while the head item was waiting there unreserved", "moves-while-stalled")
+                e["ready_at"] = self.now; e["sure"] = True
+        if op[0] == "put" and head == "ok":
+            if self.last_entry is not None and self.now < self.last_entry + self.sdelay:
+                self.v("C12", f"two items entered {self.now - self.last_entry} apart (t={self.last_entry} and t={self.now}), slot delay {self.sdelay}", "spacing")
+            if stalled_before and not self.acc:
+                self.v("C13", f"non-accumulating conveyor admitted a new item at t={self.now} while the head item was waiting at the exit unreserved", "admits-while-stalled")
+            self.last_entry = self.now
+        for e in self.inside:
+            if e["ready_at"] >= INF and self.now > e["ptime"] + travel and not e.get("late_reported") and not getattr(self, "_ever_stalled", False):
+                e["late_reported"] = True
+                self.v("C12", f"item {e['id']} entered at t={e['ptime']} is still not offered at t={self.now} (travel time {travel}) although nothing ever waited at the exit", "travel-long")
+        nready = sum(1 for e in self.inside if e["ready_at"] < INF)
+        self._stalled = nready > len(self.granted("get"))
+        if self._stalled: self._ever_stalled = True
 
     # ---- fleet (C14): batches, round trip, bounded wait
     def fleet_line(self, op, ready_ids):
@@ -252,7 +292,7 @@ class StoreJudge:
                 return
             t.state = "used"
             delay = op[5] if len(op) > 5 else 0
-            e = dict(id=op[3], kind=op[4], ptime=self.now, ready_at=(10 ** 9 if self.family == "fleet" else self.now + delay), seq=self.nput)
+            e = dict(id=op[3], kind=op[4], ptime=self.now, ready_at=(10 ** 9 if self.family in ("fleet", "slot") else self.now + delay), seq=self.nput)
             self.nput += 1
             # aliasing of one object stored twice: the filter store re-stamps put_time on the object
             if self.filter:
@@ -271,7 +311,7 @@ class StoreJudge:
                 self.v("C07", f"put accepted without a valid reservation (token {tid}, actor {a})")
                 # keep the books consistent with what the store did
                 delay = op[5] if len(op) > 5 else 0
-                self.inside.append(dict(id=op[3], kind=op[4], ptime=self.now, ready_at=(10 ** 9 if self.family == "fleet" else self.now + delay), seq=self.nput))
+                self.inside.append(dict(id=op[3], kind=op[4], ptime=self.now, ready_at=(10 ** 9 if self.family in ("fleet", "slot") else self.now + delay), seq=self.nput))
                 self.nput += 1
                 if t is not None and t.state == "granted": t.state = "used"
             elif head != "err RuntimeError":
@@ -402,6 +442,8 @@ class StoreJudge:
                 self.v("C01", f"{len(self.inside)} items + {g} granted space reservations > capacity {self.cap}", "cap-exceeded")
         # C04, space side: the admission test is time-independent for these families
         pp = self.pending("put")
+        if pp and self.family == "slot" and any(e["ready_at"] >= 10 ** 9 for e in self.inside):
+            pp = []       # with items moving, admission also depends on the spacing test, re-evaluated by a kernel event
         if pp:
             room = True if self.cap is None else len(self.granted("put")) + len(self.inside) < self.cap
             if room:
